@@ -146,9 +146,13 @@ def apply_call(obj, name, args):
     if name in _VALUE_OPS:
         import zlib
         try:
-            if zlib.crc32(repr(args).encode()) % 3 == 1:
+            h = zlib.crc32(repr(args).encode()) % 6
+            if h in (1, 4):
                 memo = {}
                 args = [a if isinstance(a, slice) else _alias(a, memo) for a in args]
+            elif h == 2 and name in ("dsetitem", "dsetdefault", "lsetitem", "linsert", "lappend") and not isinstance(args[0], slice):
+                # a value with tuples in it (stored as lists); top level stays what it was
+                args = list(args[:-1]) + [_tuplify(args[-1], flip=False)]
         except Exception:  # noqa: BLE001  (arguments that cannot be walked: invalid on purpose)
             pass
     if name == "dsetitem":
@@ -158,6 +162,8 @@ def apply_call(obj, name, args):
         del obj[args[0]]
         return None
     if name == "dpop":
+        if args[1] is None and _form(args, 2) == 0 and _is_synced(obj):
+            return obj.pop(args[0])          # documented: the default of pop() is None
         return obj.pop(args[0], args[1])
     if name == "dpopitem":
         return obj.popitem()
@@ -203,6 +209,8 @@ def apply_call(obj, name, args):
     if name in ("dne", "lne"):
         return obj != _operand(obj, args[0])
     if name == "dget":
+        if args[1] is None and _form(args, 2) == 0:
+            return obj.get(args[0])
         return obj.get(args[0], args[1])
     if name == "lsetitem":
         obj[args[0]] = args[1]
@@ -215,13 +223,15 @@ def apply_call(obj, name, args):
     if name == "lappend":
         return obj.append(args[0])
     if name == "lextend":
-        return obj.extend(args[0])
+        return obj.extend(_iterable_form(args[0], _form(args, 4)))
     if name == "liadd":
-        obj += args[0]
+        obj += _iterable_form(args[0], _form(args, 4))
         return None
     if name == "lremove":
         return obj.remove(args[0])
     if name == "lpop":
+        if args[0] == -1 and _form(args, 2) == 0:
+            return obj.pop()
         return obj.pop(args[0])
     if name == "lreverse":
         return obj.reverse()
@@ -242,6 +252,39 @@ def apply_call(obj, name, args):
     if name == "lcmp":
         return CMP[args[0]](obj, _operand(obj, args[1]))
     raise ValueError(name)
+
+
+def _form(args, n):
+    """deterministic choice among the call forms that mean the same"""
+    import zlib
+    return zlib.crc32(("form" + repr(args)).encode()) % n
+
+
+def _is_synced(obj):
+    return hasattr(obj, "_load")
+
+
+def _iterable_form(v, k):
+    """the argument of extend / += as a list, a tuple, a one-shot iterator or a generator"""
+    if not isinstance(v, list):
+        return v
+    if k == 1:
+        return tuple(v)
+    if k == 2:
+        return iter(v)
+    if k == 3:
+        return (x for x in v)
+    return v
+
+
+def _tuplify(v, flip=True):
+    """the same value with every other nested list as a tuple (tuples are stored as lists)"""
+    if isinstance(v, list):
+        out = [_tuplify(x, not flip) for x in v]
+        return tuple(out) if flip else out
+    if isinstance(v, dict):
+        return {k: _tuplify(x, flip) for k, x in v.items()}
+    return v
 
 
 def _operand(obj, other):
